@@ -2,6 +2,7 @@ package executor
 
 import (
 	"encoding/json"
+	"reflect"
 	"strings"
 
 	"github.com/buildbuildio/pebbles/common"
@@ -42,7 +43,8 @@ func getLeftEntityPosition(left []interface{}, id interface{}) int {
 	leftEntityPosition := -1
 	for lIdx, lv := range left {
 		if lMap, ok := lv.(map[string]interface{}); ok {
-			if lID, ok := lMap[common.IDFieldName]; ok && lID == id {
+			// ids are decoded JSON: == panics when both are maps or slices
+			if lID, ok := lMap[common.IDFieldName]; ok && reflect.DeepEqual(lID, id) {
 				leftEntityPosition = lIdx
 				break
 			}
